@@ -6,7 +6,7 @@ From BV Require Import Base.Prelude Model.Block Model.ForkDB Model.Forkable Mode
   Model.Burst Model.Hub Model.CursorResolver Model.Joining
   Spec.Consumer Spec.Universe Check.Burst_Check Check.C07_Check Spec.C06_Spec Spec.C07_Spec Spec.C09_Spec Spec.C13_Spec
   Spec.C07_Compose_Spec Spec.C07_Shapes_Spec Spec.C07_More_Spec Spec.C07_Final_Spec Spec.C07_FinalUnfixed_Spec Spec.C07_Fuel_Spec
-  Proofs.C07_ComposeRun Proofs.C07_ComposeCheck Proofs.C07_FullRefuted Proofs.C07_Shapes Proofs.C07_FiltersNum Proofs.C07_FiltersCursor Proofs.C07_Final Proofs.C07_FinalRefuted Proofs.C07_Fuel
+  Proofs.C07_ComposeRun Proofs.C07_ComposeCheck Proofs.C07_FullRefuted Proofs.C07_Shapes Proofs.C07_FiltersNum Proofs.C07_FiltersCursor Proofs.C07_FiltersTarget Proofs.C07_Final Proofs.C07_FinalRefuted Proofs.C07_Fuel
   Properties.C07_Compose.
 Local Open Scope N_scope.
 
@@ -33,6 +33,12 @@ Print Assumptions c07_seamless_num_nu.
 Theorem c07_seamless_cursor_nu : C07_seamless_cursor_nu.
 Proof. exact c07_seamless_cursor_nu_proof. Qed.
 Print Assumptions c07_seamless_cursor_nu.
+
+(* target-cursor mode, filters with New and Undo, ANY stop block; partial: the two agreement hypotheses of
+   c07_seamless_target_partial remain (files_on_hub, target_on_chain) *)
+Theorem c07_seamless_target_nu_partial : C07_seamless_target_nu.
+Proof. exact c07_seamless_target_nu_proof. Qed.
+Print Assumptions c07_seamless_target_nu_partial.
 
 (* number mode, final blocks only (the stateful filter of the fix "each final block once"), any stop block: each
    delivered block extends the previous one; complete on the final chain.  No files_final hypothesis. *)
@@ -172,5 +178,29 @@ Proof.
   split; [apply eventual_tip_b_sound; vm_compute; reflexivity|].
   split; [reflexivity|]. split; [reflexivity|]. split; [reflexivity|]. split; [reflexivity|].
   split; [exact Hf|]. split; [exact HLr|]. split; [exact Hst|].
+  vm_compute. reflexivity.
+Qed.
+
+(* target-cursor mode with the custom filter New|Undo and stop block 17: the target cursor of Properties/C07_Compose.v *)
+Definition mx_c4 : jcfg := mkJ 2 0 10 2 5 (Some cx_cu4) 17 2 3.
+
+Example c07_more_nonvacuous_target :
+  hub_of_universe cx_U mx_c4 cx_w /\ eventual_tip mx_c4 cx_w cx_canon /\
+  files_on_hub mx_c4 cx_w cx_merged /\ target_on_chain mx_c4 cx_w cx_cu4 /\
+  j_mode mx_c4 = 2 /\ j_cursor mx_c4 = Some cx_cu4 /\ has_nu (j_filter mx_c4) (j_custom mx_c4) = true /\ 0 < j_bundle mx_c4 /\
+  In (cx_b 14) cx_canon /\ bref (cx_b 14) = cu_blk cx_cu4 /\
+  (exists b, In b cx_canon /\ bnum b = run_start mx_c4 cx_w) /\
+  cx_show (stream_run mx_c4 cx_w [(3, 1); (12, 2)] 15 cx_merged [])
+  = ([(SNewIrr, 5); (SNewIrr, 6); (SNewIrr, 7); (SNewIrr, 8); (SNewIrr, 9); (SNewIrr, 10); (SNewIrr, 11);
+      (SNewIrr, 12); (SNewIrr, 13); (SNew, 14); (SNew, 15); (SNew, 116); (SUndo, 116); (SNew, 16); (SNew, 17)], JStop).
+Proof.
+  destruct c07_compose_nonvacuous_hyps as (_ & _ & Hhub & _ & _ & _ & _ & _).
+  split; [exact Hhub|].
+  split; [apply eventual_tip_b_sound; vm_compute; reflexivity|].
+  split; [apply files_on_hub_b_sound; vm_compute; reflexivity|].
+  split; [apply target_on_chain_b_sound; vm_compute; reflexivity|].
+  split; [reflexivity|]. split; [reflexivity|]. split; [reflexivity|]. split; [reflexivity|].
+  split; [vm_compute; tauto|]. split; [reflexivity|].
+  split; [exists (cx_b 5); split; [vm_compute; tauto | vm_compute; reflexivity]|].
   vm_compute. reflexivity.
 Qed.
